@@ -41,6 +41,7 @@ def write(summary, extra):
         "aggregate_event_log_digest": summary["digest"],
         "harness_errors": summary["harness_errors"],
         "machine": summary["machine"],
+        "distinct_counts_are_lower_bounds_for": summary.get("saturated", []),
     }
     body = {
         "property_id": prop,
